@@ -28,3 +28,16 @@ Theorem C01_nest_okb_sound_partial : forall L tms views,
   nest_okb L (map (map rem) tms) views = true ->
   views = expected_views L (map (map rem) tms) /\ forall p, sum_at p (run L tms) = body_den tms p.
 Proof. exact nest_okb_sound. Qed.
+
+(* the same with the update statement included: the validator also reads off the innermost statement - which operands
+   each term multiplies (scalar factors are rank-0 operands) and whether it accumulates (`+=`) or assigns (`<<=`).  If it
+   accepts, then for ALL inputs: the nest as the text writes it (run_lv: the text's own update expression at the bottom)
+   leaves at every output point o what accumulating every contribution of the proven nest `run` leaves there - an
+   assignment being accepted only when no loop rank is reduced away, in which case every output point receives at most
+   one contribution - and those contributions are, at every full point, the sum of products. *)
+Theorem C01_nest_full_okb_sound_partial : forall L tms views acc lv out,
+  nest_full_okb L (map (map rem) tms) views acc lv out = true ->
+  views = expected_views L (map (map rem) tms) /\
+  (forall o, nest_result acc out o (run_lv lv L tms) = out_sum_at out o (run L tms)) /\
+  (forall p, sum_at p (run L tms) = body_den tms p).
+Proof. exact nest_full_okb_sound. Qed.
